@@ -25,6 +25,7 @@ import (
 	corev3 "github.com/envoyproxy/go-control-plane/envoy/config/core/v3"
 	"google.golang.org/protobuf/proto"
 	"google.golang.org/protobuf/types/known/durationpb"
+	"google.golang.org/protobuf/types/known/wrapperspb"
 
 	corev1 "k8s.io/api/core/v1"
 	metav1 "k8s.io/apimachinery/pkg/apis/meta/v1"
@@ -32,15 +33,18 @@ import (
 	kfake "k8s.io/client-go/kubernetes/fake"
 
 	meshconfig "istio.io/api/mesh/v1alpha1"
+	"istio.io/istio/pilot/pkg/bootstrap"
 	kubesecrets "istio.io/istio/pilot/pkg/credentials/kube"
 	"istio.io/istio/pilot/pkg/features"
 	"istio.io/istio/pilot/pkg/model"
+	"istio.io/istio/pilot/pkg/networking/core"
 	pxds "istio.io/istio/pilot/pkg/xds"
 	v3 "istio.io/istio/pilot/pkg/xds/v3"
 	txds "istio.io/istio/pilot/test/xds"
 	"istio.io/istio/pilot/test/xdstest"
 	"istio.io/istio/pkg/cluster"
 	"istio.io/istio/pkg/config/mesh"
+	"istio.io/istio/pkg/config/schema/kind"
 	kubelib "istio.io/istio/pkg/kube"
 	"istio.io/istio/pkg/kube/multicluster"
 	"istio.io/istio/pkg/network"
@@ -260,6 +264,53 @@ spec:
     patch:
       operation: MERGE
       value: {route: {timeout: 11s}}
+---
+apiVersion: networking.istio.io/v1
+kind: VirtualService
+metadata: {name: vs-c-src, namespace: default}
+spec:
+  hosts: [c.example.com]
+  exportTo: ["."]
+  http:
+  - match: [{sourceLabels: {tier: gold}}]
+    route: [{destination: {host: a.example.com}}]
+    timeout: 2s
+  - route: [{destination: {host: c.example.com}}]
+---
+apiVersion: networking.istio.io/v1
+kind: VirtualService
+metadata: {name: vs-hb-srcns, namespace: istio-system}
+spec:
+  hosts: [hb.example.com]
+  http:
+  - match: [{sourceNamespace: ns-b, uri: {prefix: /b}}]
+    route: [{destination: {host: a.example.com}}]
+  - match: [{sourceLabels: {app: client}, headers: {x-c: {exact: "1"}}}]
+    route: [{destination: {host: hb.example.com}}]
+    timeout: 4s
+  - route: [{destination: {host: hb.example.com}}]
+---
+apiVersion: networking.istio.io/v1
+kind: ServiceEntry
+metadata: {name: se-hb, namespace: default}
+spec:
+  hosts: [hb.example.com]
+  ports:
+  - {number: 8081, name: http-hb, protocol: HTTP}
+  resolution: STATIC
+  location: MESH_INTERNAL
+  endpoints:
+  - {address: 10.4.0.1, locality: region1/zone1/sub1, network: net1, labels: {app: hb, networking.istio.io/tunnel: http}}
+  - {address: 10.4.0.2, locality: region1/zone1/sub1, network: net1, labels: {app: hb}}
+---
+apiVersion: networking.istio.io/v1
+kind: Sidecar
+metadata: {name: sc-reg, namespace: default}
+spec:
+  workloadSelector: {labels: {reg: only}}
+  outboundTrafficPolicy: {mode: REGISTRY_ONLY}
+  egress:
+  - hosts: ["*/*"]
 `
 
 const keysKube = `
@@ -340,7 +391,11 @@ spec:
 `
 
 // optional configs a world variant may drop (bit i of the variant number)
-var keysOptional = []string{"name: dr-a,", "name: dr-a-nsb,", "name: dr-b,", "name: sc-b,", "name: ef-version,", "name: nsb,", "name: vs-a,", "name: dr-dns,"}
+var keysOptional = []string{"name: dr-a,", "name: dr-a-nsb,", "name: dr-b,", "name: sc-b,", "name: ef-version,", "name: nsb,", "name: vs-a,", "name: dr-dns,",
+	"", // bit 8: mesh-wide default private key provider (see newKeysWorld)
+	"name: vs-c-src,", "name: vs-hb-srcns,", "name: dr-sel,", "name: sc-reg,"}
+
+const keysWorldBits = 13
 
 func keysConfig(variant int) string {
 	docs := strings.Split(keysMesh, "\n---\n")
@@ -348,7 +403,7 @@ func keysConfig(variant int) string {
 	for _, d := range docs {
 		drop := false
 		for i, marker := range keysOptional {
-			if variant&(1<<i) != 0 && strings.Contains(d, marker) {
+			if marker != "" && variant&(1<<i) != 0 && strings.Contains(d, marker) {
 				drop = true
 			}
 		}
@@ -359,10 +414,16 @@ func keysConfig(variant int) string {
 	return strings.Join(keep, "\n---\n")
 }
 
+// genSet is one set of the real CDS / EDS / RDS / SDS generators.
+type genSet struct{ cds, eds, rds, sds model.XdsResourceGenerator }
+
 type keysWorld struct {
-	f   *failer
-	s   *txds.FakeDiscoveryServer
-	sds model.XdsResourceGenerator
+	f     *failer
+	s     *txds.FakeDiscoveryServer
+	gens  genSet // the server's generators, all on the server's shared XdsCache
+	twins genSet // the same generator types over a DisabledCache (generation from scratch)
+
+	sdsClients map[cluster.ID]kubelib.Client // the kube clients behind the SDS credentials controllers
 }
 
 func mkSecret(ns, name string, data map[string]string) *corev1.Secret {
@@ -375,9 +436,18 @@ func mkSecret(ns, name string, data map[string]string) *corev1.Secret {
 
 // newSDSGen wires the real SecretGen exactly as bootstrap does (credentials controller per cluster, the
 // server's XdsCache, the mesh config - the FakeDiscoveryServer passes a nil mesh config instead).
-func newSDSGen(f *failer, m *meshconfig.MeshConfig, cache model.XdsCache) model.XdsResourceGenerator {
+func newSDSGen(f *failer, m *meshconfig.MeshConfig, ds *pxds.DiscoveryServer) (model.XdsResourceGenerator, model.XdsResourceGenerator, map[cluster.ID]kubelib.Client) {
+	cache := ds.Cache
 	mc := multicluster.NewFakeController()
 	creds := kubesecrets.NewMulticluster("Kubernetes", mc)
+	// as bootstrap.initSDSServer: a Secret event becomes a ConfigUpdate for that Secret
+	creds.AddSecretHandler(func(k kind.Kind, name string, namespace string) {
+		ds.ConfigUpdate(&model.PushRequest{
+			ConfigsUpdated: sets.New(model.ConfigKey{Kind: k, Name: name, Namespace: namespace}),
+			Reason:         model.NewReasonStats(model.SecretTrigger),
+		})
+	})
+	clients := map[cluster.ID]kubelib.Client{}
 	stop := make(chan struct{})
 	f.Cleanup(func() { close(stop) })
 	objs := map[cluster.ID][]runtime.Object{
@@ -395,13 +465,15 @@ func newSDSGen(f *failer, m *meshconfig.MeshConfig, cache model.XdsCache) model.
 		txds.DisableAuthorizationForSecret(client.Kube().(*kfake.Clientset))
 		mc.Add(id, client, stop)
 		client.RunAndWait(stop)
+		clients[id] = client
 	}
-	return pxds.NewSecretGen(creds, cache, "Kubernetes", m)
+	return pxds.NewSecretGen(creds, cache, "Kubernetes", m), pxds.NewSecretGen(creds, model.DisabledCache{}, "Kubernetes", m), clients
 }
 
 func newKeysWorld(variant int) *keysWorld {
 	features.XDSCacheMaxSize = 60000
 	features.EnableCDSCaching, features.EnableRDSCaching = true, true
+	features.EnableIPAutoallocate = false // ServiceEntries without addresses get 240.240.x.y (DNS capture matters)
 	f := &failer{}
 	m := mesh.DefaultMeshConfig()
 	m.OutboundTrafficPolicy = &meshconfig.MeshConfig_OutboundTrafficPolicy{Mode: meshconfig.MeshConfig_OutboundTrafficPolicy_ALLOW_ANY}
@@ -426,7 +498,21 @@ func newKeysWorld(variant int) *keysWorld {
 			{Network: "net2", Cluster: "cluster2", Addr: "2.2.2.100", Port: 15443},
 		},
 	})
-	w := &keysWorld{f: f, s: s, sds: newSDSGen(f, m, s.Discovery.Cache)}
+	// One XdsCache shared by the server, its generators and the endpoint index, as bootstrap wires it (the fake
+	// server's generators sit on the cache of a throw-away Environment, which EndpointIndex.clearCacheForService
+	// never reaches).
+	s.Discovery.Cache = s.Discovery.Env.Cache
+	bootstrap.InitGenerators(s.Discovery, core.NewConfigGenerator(s.Discovery.Cache), "istio-system", "", nil)
+	sdsC, sdsU, sdsClients := newSDSGen(f, m, s.Discovery)
+	g := s.Discovery.Generators
+	g[v3.SecretType] = sdsC // the server answers SDS requests / pushes / dumps with the production-wired generator
+	cg := core.NewConfigGenerator(&model.DisabledCache{})
+	w := &keysWorld{f: f, s: s,
+		gens: genSet{g[v3.ClusterType], g[v3.EndpointType], g[v3.RouteType], sdsC},
+		twins: genSet{&pxds.CdsGenerator{ConfigGenerator: cg},
+			&pxds.EdsGenerator{Cache: model.DisabledCache{}, EndpointIndex: s.Discovery.Env.EndpointIndex},
+			&pxds.RdsGenerator{ConfigGenerator: cg}, sdsU},
+		sdsClients: sdsClients}
 	quiet.Silence()
 	return w
 }
@@ -464,7 +550,13 @@ func basePattrs(variant int) pattrs {
 
 var keyAttrs = []string{"namespace", "labels-tier", "labels-patched", "labels-scoped", "labels-app", "network", "cluster", "locality-region", "locality-zone",
 	"node", "type", "version", "flag-hbone-off", "flag-http10", "flag-dnscapture", "flag-dnsauto", "flag-certs", "dnsdomain",
-	"flag-proxyconfig", "flag-pkp-qat", "flag-pkp-cryptomb"}
+	"flag-proxyconfig", "flag-pkp-qat", "flag-pkp-cryptomb",
+	"labels-reg", "flag-grpc", "flag-ipv6", "flag-preserve-case", "flag-dnsauto-only"}
+
+// attribute groups that only matter in combination (e.g. DNS auto-allocation is used iff capture AND auto-allocate):
+// every world serves each group in sequence from one cache
+var keyCombos = []string{"flag-dnsauto,flag-dnsauto-only,flag-dnscapture,flag-ipv6", "flag-hbone-off,flag-grpc,labels-tier,labels-app",
+	"flag-proxyconfig,flag-pkp-qat,flag-pkp-cryptomb,flag-preserve-case"}
 
 func (p pattrs) with(attr string) pattrs {
 	q := p
@@ -498,6 +590,8 @@ func (p pattrs) with(attr string) pattrs {
 		flipLabel("scoped", "yes", "no")
 	case "labels-app":
 		flipLabel("app", "client", "other")
+	case "labels-reg":
+		flipLabel("reg", "only", "no")
 	case "network":
 		if p.network == "net1" {
 			q.network = "net2"
@@ -568,6 +662,9 @@ func (w *keysWorld) proxy(a pattrs, id string) *model.Proxy {
 		md.DNSCapture = true
 		md.DNSAutoAllocate = true
 	}
+	if a.flags["flag-dnsauto-only"] {
+		md.DNSAutoAllocate = true
+	}
 	switch {
 	case a.flags["flag-pkp-qat"]:
 		md.ProxyConfig = &model.NodeMetaProxyConfig{PrivateKeyProvider: &meshconfig.PrivateKeyProvider{Provider: &meshconfig.PrivateKeyProvider_Qat{
@@ -581,6 +678,15 @@ func (w *keysWorld) proxy(a pattrs, id string) *model.Proxy {
 		// a ProxyConfig that says nothing about private key providers
 		md.ProxyConfig = &model.NodeMetaProxyConfig{Concurrency: nil, StatusPort: 15020}
 	}
+	if a.flags["flag-grpc"] {
+		md.Generator = "grpc"
+	}
+	if a.flags["flag-preserve-case"] {
+		if md.ProxyConfig == nil {
+			md.ProxyConfig = &model.NodeMetaProxyConfig{}
+		}
+		md.ProxyConfig.ProxyHeaders = &meshconfig.ProxyConfig_ProxyHeaders{PreserveHttp1HeaderCase: wrapperspb.Bool(true)}
+	}
 	if a.flags["flag-certs"] {
 		md.TLSClientCertChain, md.TLSClientKey, md.TLSClientRootCert = "/c/chain.pem", "/c/key.pem", "/c/root.pem"
 	}
@@ -590,7 +696,7 @@ func (w *keysWorld) proxy(a pattrs, id string) *model.Proxy {
 		ConfigNamespace:  a.ns,
 		Labels:           a.labels,
 		Metadata:         md,
-		IPAddresses:      []string{"10.9.9.9"},
+		IPAddresses:      ipsOf(a),
 		Locality:         &corev3.Locality{Region: a.locality[0], Zone: a.locality[1], SubZone: a.locality[2]},
 		DNSDomain:        a.dnsDom,
 		VerifiedIdentity: &spiffe.Identity{TrustDomain: "cluster.local", Namespace: a.ns, ServiceAccount: "sa-client"},
@@ -598,8 +704,20 @@ func (w *keysWorld) proxy(a pattrs, id string) *model.Proxy {
 	return w.s.SetupProxy(p)
 }
 
+func ipsOf(a pattrs) []string {
+	if a.flags["flag-ipv6"] {
+		return []string{"2001:db8::9"}
+	}
+	return []string{"10.9.9.9"}
+}
+
 // generate runs the server's real CDS, EDS and RDS generators (which use the server's XdsCache).
 func (w *keysWorld) generate(p *model.Proxy) map[string]proto.Message {
+	return w.generateWith(w.gens, p)
+}
+
+// generateWith runs one set of generators for a proxy with the current global context and Start = now.
+func (w *keysWorld) generateWith(gs genSet, p *model.Proxy) map[string]proto.Message {
 	out := map[string]proto.Message{}
 	req := &model.PushRequest{Forced: true, Push: w.s.PushContext(), Start: time.Now()}
 	add := func(prefix string, rs model.Resources) {
@@ -611,26 +729,33 @@ func (w *keysWorld) generate(p *model.Proxy) map[string]proto.Message {
 			out[prefix+"/"+r.Name] = m
 		}
 	}
-	cds, _, err := w.s.Discovery.Generators[v3.ClusterType].Generate(p, &model.WatchedResource{TypeUrl: v3.ClusterType}, req)
-	if err != nil {
-		panic(err)
+	// a proxyless gRPC client is answered by grpcgen for CDS/LDS/RDS (no cache); only its EDS and SDS go
+	// through the cached generators (bootstrap.InitGenerators: "grpc/"+EndpointType = EdsGenerator)
+	grpc := p.IsProxylessGrpc()
+	if !grpc {
+		cds, _, err := gs.cds.Generate(p, &model.WatchedResource{TypeUrl: v3.ClusterType}, req)
+		if err != nil {
+			panic(err)
+		}
+		add("cds", cds)
 	}
-	add("cds", cds)
 	clusters := w.s.Clusters(p) // uncached generator of the test helper: only used to learn the EDS names
-	eds, _, err := w.s.Discovery.Generators[v3.EndpointType].Generate(p,
+	eds, _, err := gs.eds.Generate(p,
 		&model.WatchedResource{TypeUrl: v3.EndpointType, ResourceNames: sets.New(xdstest.ExtractEdsClusterNames(clusters)...)}, req)
 	if err != nil {
 		panic(err)
 	}
 	add("eds", eds)
-	routes := xdstest.ExtractRoutesFromListeners(w.s.Listeners(p))
-	rds, _, err := w.s.Discovery.Generators[v3.RouteType].Generate(p,
-		&model.WatchedResource{TypeUrl: v3.RouteType, ResourceNames: sets.New(routes...)}, req)
-	if err != nil {
-		panic(err)
+	if !grpc {
+		routes := xdstest.ExtractRoutesFromListeners(w.s.Listeners(p))
+		rds, _, err := gs.rds.Generate(p,
+			&model.WatchedResource{TypeUrl: v3.RouteType, ResourceNames: sets.New(routes...)}, req)
+		if err != nil {
+			panic(err)
+		}
+		add("rds", rds)
 	}
-	add("rds", rds)
-	sds, _, err := w.sds.Generate(p,
+	sds, _, err := gs.sds.Generate(p,
 		&model.WatchedResource{TypeUrl: v3.SecretType, ResourceNames: sets.New("kubernetes://tls-a", "kubernetes://tls-a-cacert",
 			"kubernetes://ns-b/tls-a", "kubernetes://default/tls-a", "kubernetes://missing")}, req)
 	if err != nil {
@@ -663,6 +788,28 @@ func diffOutputs(a, b map[string]proto.Message) string {
 	return ""
 }
 
+// diffTypes returns the resource types (cds/eds/rds/sds) in which two outputs differ.
+func diffTypes(a, b map[string]proto.Message) []string {
+	seen := map[string]bool{}
+	for k, x := range a {
+		if y, ok := b[k]; !ok || !proto.Equal(x, y) {
+			seen[k[:3]] = true
+		}
+	}
+	for k := range b {
+		if _, ok := a[k]; !ok {
+			seen[k[:3]] = true
+		}
+	}
+	var out []string
+	for _, t := range []string{"cds", "eds", "rds", "sds"} {
+		if seen[t] {
+			out = append(out, t)
+		}
+	}
+	return out
+}
+
 var keysEntries, keysShared int
 
 type keysStats struct {
@@ -672,7 +819,7 @@ type keysStats struct {
 
 // runPair returns "eq" or "diff:<resource>"; sens reports whether generation distinguishes the two
 // proxies at all (cold outputs differ), i.e. whether the key had to distinguish them.
-func (w *keysWorld) runPair(first, second pattrs) (res string, sens bool) {
+func (w *keysWorld) runPair(first, second pattrs) (res string, sens []string) {
 	cache := w.s.Discovery.Cache
 	nkeys := func() int {
 		n := 0
@@ -693,14 +840,49 @@ func (w *keysWorld) runPair(first, second pattrs) (res string, sens bool) {
 	k3 := nkeys()
 	keysEntries += k3
 	keysShared += k3 - (k2 - k1) // entries of `second` that were served from what `first` had stored
-	sens = diffOutputs(coldFirst, cold) != ""
+	sens = diffTypes(coldFirst, cold)
 	if os.Getenv("C06_DEBUG") != "" {
 		fmt.Fprintln(os.Stderr, "first-vs-second differs at:", diffOutputs(coldFirst, cold), "entries", k1, k2, k3)
 	}
 	if d := diffOutputs(warm, cold); d != "" {
+		if os.Getenv("C06_DEBUG") != "" {
+			fmt.Fprintf(os.Stderr, "WARM %v\nCOLD %v\n", warm[d], cold[d])
+		}
 		return "diff:" + d, sens
 	}
 	return "eq", sens
+}
+
+// runSeq serves several proxies one after the other from ONE shared cache (never cleared in between), first in
+// the given order, then in reverse order; every answer must equal what the uncached twin generators yield for that
+// proxy. Returns "eq" or "diff:<round>:<position>:<attr>:<resource>".
+func (w *keysWorld) runSeq(base pattrs, attrs []string) string {
+	w.s.Discovery.Cache.ClearAll()
+	ps := []pattrs{base}
+	names := []string{"base"}
+	for _, a := range attrs {
+		ps = append(ps, base.with(a))
+		names = append(names, a)
+	}
+	proxies := make([]*model.Proxy, len(ps))
+	for i, a := range ps {
+		proxies[i] = w.proxy(a, fmt.Sprintf("seq%d", i))
+	}
+	order := make([]int, 0, 2*len(ps))
+	for i := range ps {
+		order = append(order, i)
+	}
+	for i := len(ps) - 1; i >= 0; i-- {
+		order = append(order, i)
+	}
+	for n, i := range order {
+		warm := w.generateWith(w.gens, proxies[i])
+		cold := w.generateWith(w.twins, proxies[i])
+		if d := diffOutputs(warm, cold); d != "" {
+			return fmt.Sprintf("diff:%d:%d:%s:%s", n/len(ps), i, names[i], d)
+		}
+	}
+	return "eq"
 }
 
 func genKeys(seed uint64, n int, path string) {
@@ -710,10 +892,11 @@ func genKeys(seed uint64, n int, path string) {
 	for c := 0; c < n; c++ {
 		world := 0
 		if c > 0 {
-			world = r.Intn(256)
-			if r.Chance(1, 2) {
-				world &= r.Intn(256) // mostly few configs dropped
+			world = r.Intn(1 << keysWorldBits)
+			if r.Chance(2, 3) {
+				world &= r.Intn(1 << keysWorldBits) // mostly few configs dropped
 			}
+			world &^= 256
 			if r.Chance(1, 2) {
 				world |= 256 // mesh-wide default private key provider
 			}
@@ -726,6 +909,17 @@ func genKeys(seed uint64, n int, path string) {
 		for _, a := range keyAttrs {
 			out.Line("pair", a, wire.Pick(r, []string{"pq", "qp"}))
 		}
+		// several proxies served in sequence from one cache
+		for _, combo := range keyCombos {
+			out.Line("seq", combo)
+		}
+		for k := 0; k < 3; k++ {
+			var as []string
+			for len(as) < 3+r.Intn(4) {
+				as = append(as, wire.Pick(r, keyAttrs))
+			}
+			out.Line("seq", strings.Join(as, ","))
+		}
 	}
 }
 
@@ -734,6 +928,14 @@ func execKeys(opsPath, outPath string) {
 	out := wire.Create(outPath)
 	defer out.Close()
 	stats := map[string][2]int{}
+	bump := func(k string, sens bool) {
+		st := stats[k]
+		st[0]++
+		if sens {
+			st[1]++
+		}
+		stats[k] = st
+	}
 	var w *keysWorld
 	var base pattrs
 	for _, f := range all {
@@ -761,13 +963,17 @@ func execKeys(opsPath, outPath string) {
 					first, second = q, base
 				}
 				res, sens := w.runPair(first, second)
-				st := stats[f[1]]
-				st[0]++
-				if sens {
-					st[1]++
+				bump(f[1], len(sens) > 0)
+				for _, t := range []string{"cds", "eds", "rds", "sds"} {
+					hit := false
+					for _, x := range sens {
+						hit = hit || x == t
+					}
+					bump(f[1]+"/"+t, hit)
 				}
-				stats[f[1]] = st
 				out.Line(res)
+			case f[0] == "seq" && len(f) == 2 && w != nil:
+				out.Line(w.runSeq(base, strings.Split(f[1], ",")))
 			default:
 				out.Line("bad-op")
 			}
@@ -816,6 +1022,13 @@ func oracleKeys(opsPath, outPath string) {
 			defer w.close()
 			base := basePattrs(bv)
 			for _, f := range c[1:] {
+				if f[0] == "seq" && len(f) == 2 {
+					if res := w.runSeq(base, strings.Split(f[1], ",")); res != "eq" {
+						verdict = fmt.Sprintf("FAIL shared-entry seq=%s world=%d base=%d %s", f[1], wv, bv, res)
+						return
+					}
+					continue
+				}
 				if f[0] != "pair" || len(f) != 3 {
 					continue
 				}
